@@ -69,14 +69,34 @@ Definition C10_body (cfg : config) : Prop :=
   tget (thr s) (s_id r) = Some tr -> started (proc tr) = true ->
   exists tp, tget (thr s) (s_id p) = Some tp /\ is_running (proc tp) = false /\
              (is_done (loc tp) = true \/ (s_when r = Always /\ is_terminal (loc tp) = true)).
-Definition C10_full : Prop := forall cfg, C10_body cfg.
+(* [p16]: is the repair of P16 in (dependencies_to_path matches the glob pattern against the declared
+   output path instead of asking whether a matching file exists / was recorded) *)
+Definition C10_full (p16 : bool) : Prop := forall cfg, fixed_P16 cfg = p16 -> C10_body cfg.
 
-(* proved: outside the boolean class Known_glob_on_absent_output (open finding P16) *)
+(* 5. With the repair of P16 the graph covers ALL declared semantic reads (every dependency kind) ... *)
+Theorem edges_cover_all_declared_reads cfg r p d o :
+  fixed_P16 cfg = true ->
+  In r (c_steps cfg) -> In p (c_steps cfg) -> In d (s_deps r) -> In o (s_outs p) ->
+  sem_reads d o = true -> In (s_id r, s_id p) (edges cfg).
+Proof. exact (edges_cover_all_reads_fixed_lemma cfg r p d o). Qed.
+
+(* ... and the full statement holds unconditionally *)
+Theorem C10_full_fixed : C10_full true.
+Proof. exact (fun cfg Hfx sch s r p d o tr => C10_full_fixed_lemma cfg sch s r p d o tr Hfx). Qed.
+
+(* for every setting of the switch: outside the boolean class Known_glob_on_absent_output (finding P16;
+   the class is empty when the repair is in: [glob_class_empty_when_fixed]) *)
 Theorem C10_outside_known_class cfg : Known_glob_on_absent_output cfg = false -> C10_body cfg.
-Proof. intros Hk sch s r p d o tr. exact (C10_semantic_lemma cfg sch s r p d o tr Hk). Qed.
+Proof. exact (fun Hk sch s r p d o tr => C10_semantic_lemma cfg sch s r p d o tr Hk). Qed.
 
-(* the regenerated table: every transition of the handler model is one the state_machine! macro allows *)
+Theorem glob_class_empty_when_fixed cfg : fixed_P16 cfg = true -> Known_glob_on_absent_output cfg = false.
+Proof. exact (glob_class_fixed cfg). Qed.
+
+(* the regenerated table: every transition of the handler model is one the state_machine! macro allows
+   (the transition of the repair of P14b is in the table of the tree that has the repair: the check
+   passes fixed_P14b = table_P14b to the model and compares both with the behaviour of the binary) *)
 Theorem handler_within_table cfg s sc t :
+  (fixed_P14b cfg = true -> table_P14b = true) ->
   match handler cfg s sc t with
   | HNext l _ _ => exists e, snd l = Some e /\ allowed (fst (loc t)) e = Some (fst l)
   | _ => True
@@ -86,15 +106,17 @@ Proof. exact (handler_within_table_lemma cfg s sc t). Qed.
 (* ---- witnesses ------------------------------------------------------------------------------ *)
 Definition mkstep i w deps outs pr :=
   {| s_id := i; s_when := w; s_deps := deps; s_outs := outs; s_proc := pr; s_sup := VChanged; s_thor := VChanged |}.
-Definition mkcfg steps ex pool a b c d e :=
+Definition mkcfg steps ex pool a b c d e f g :=
   {| c_steps := steps; c_exists := ex; c_pool := pool; c_cap := 65536;
-     fix_shared_pool := a; fix_atomic_acquire := b; fixed_P12 := c; fixed_P13 := d; fixed_P14 := e |}.
+     fix_shared_pool := a; fix_atomic_acquire := b; fixed_P12 := c; fixed_P13 := d; fixed_P14 := e;
+     fixed_P14b := f; fixed_P16 := g |}.
 Definition round_robin (cfg : config) (n : nat) : list tid := flat_map (fun _ => all_tids cfg) (seq 0 n).
 Definition steps_only (cfg : config) (n : nat) : list tid := flat_map (fun _ => map Step (step_ids cfg)) (seq 0 n).
 
 (* P16: producer 0 declares output path 1 (absent), consumer 1 has a glob matching it *)
-Definition cfg_p16 : config :=
-  mkcfg [mkstep 0 ByDeps [] [1] (Exits 0 0 0); mkstep 1 ByDeps [DGlob [1]] [] (Exits 0 0 0)] [] 2 true true true true true.
+Definition p16_steps := [mkstep 0 ByDeps [] [1] (Exits 0 0 0); mkstep 1 ByDeps [DGlob [1]] [] (Exits 0 0 0)].
+Definition cfg_p16 : config := mkcfg p16_steps [] 2 true true true true true true false.
+Definition cfg_p16_fixed : config := mkcfg p16_steps [] 2 true true true true true true true.
 
 Example p16_in_class : Known_glob_on_absent_output cfg_p16 = true.
 Proof. vm_compute. reflexivity. Qed.
@@ -103,13 +125,13 @@ Example p16_no_edge : edges cfg_p16 = [].
 Proof. vm_compute. reflexivity. Qed.
 
 (* both commands are running at the same time although the consumer reads the producer's output *)
-Theorem glob_absent_output_refuted : ~ C10_full.
+Theorem glob_absent_output_refuted : ~ C10_full false.
 Proof.
   intros H.
   pose (s := run_sched cfg_p16 (init_state cfg_p16) (steps_only cfg_p16 20)).
   destruct (tget (thr s) 1) as [tr|] eqn:Htr; [|vm_compute in Htr; discriminate].
   vm_compute in Htr. inversion Htr; subst tr; clear Htr.
-  edestruct (H cfg_p16 (steps_only cfg_p16 20) s
+  edestruct (H cfg_p16 eq_refl (steps_only cfg_p16 20) s
               (mkstep 1 ByDeps [DGlob [1]] [] (Exits 0 0 0)) (mkstep 0 ByDeps [] [1] (Exits 0 0 0)) (DGlob [1]) 1)
     as [tp [Htp [Hr _]]].
   - vm_compute. reflexivity.
@@ -125,14 +147,42 @@ Qed.
 
 (* with the output present when the run starts the edge exists *)
 Example glob_present_output_edge :
-  edges (mkcfg [mkstep 0 ByDeps [] [1] (Exits 0 0 0); mkstep 1 ByDeps [DGlob [1]] [] (Exits 0 0 0)] [1] 2 true true true true true) = [(1, 0)].
+  edges (mkcfg p16_steps [1] 2 true true true true true true false) = [(1, 0)].
+Proof. vm_compute. reflexivity. Qed.
+
+(* with the repair the edge exists although the output is absent, the consumer starts only after the
+   producer is done, and the same schedule that refutes the unrepaired model is harmless *)
+Example p16_fixed_edge : edges cfg_p16_fixed = [(1, 0)] /\ Known_glob_on_absent_output cfg_p16_fixed = false.
+Proof. vm_compute. split; reflexivity. Qed.
+Example p16_fixed_waits :
+  let s := run_sched cfg_p16_fixed (init_state cfg_p16_fixed) (steps_only cfg_p16_fixed 20) in
+  (deps_okb cfg_p16_fixed s, map (fun kv => (fst (loc (snd kv)), started (proc (snd kv)))) (thr s))
+  = (true, [(Running, true); (WaitingDependencySteps, false)]).
+Proof. vm_compute. reflexivity. Qed.
+Example p16_fixed_completes :
+  match run cfg_p16_fixed (round_robin cfg_p16_fixed 60) with
+  | Accepted s => (all_doneb s, map (fun kv => fst (loc (snd kv))) (thr s)) = (true, [DoneByRunning; DoneByRunning])
+  | Rejected _ => False
+  end.
+Proof. vm_compute. reflexivity. Qed.
+(* glob-items: the recorded list is empty on a first run; repaired: the pattern decides; a cycle
+   through such an edge is now rejected *)
+Example p16_glob_items :
+  (edges (mkcfg [mkstep 0 ByDeps [] [1] (Exits 0 0 0); mkstep 1 ByDeps [DGlobItems [1] []] [] (Exits 0 0 0)] [] 2 true true true true true true false),
+   edges (mkcfg [mkstep 0 ByDeps [] [1] (Exits 0 0 0); mkstep 1 ByDeps [DGlobItems [1] []] [] (Exits 0 0 0)] [] 2 true true true true true true true))
+  = ([], [(1, 0)]).
+Proof. vm_compute. reflexivity. Qed.
+Example p16_cycle_through_glob :
+  let steps := [mkstep 0 ByDeps [DStep 1] [1] (Exits 0 0 0); mkstep 1 ByDeps [DGlob [1]] [] (Exits 0 0 0)] in
+  (match run (mkcfg steps [] 2 true true true true true true false) [] with Accepted _ => true | _ => false end,
+   run (mkcfg steps [] 2 true true true true true true true) []) = (true, Rejected Cycle).
 Proof. vm_compute. reflexivity. Qed.
 
 (* non-vacuity: a chain 2 -> 1 -> 0 with a failing middle step and an `always` tail, run to the end
    by a round-robin schedule: 0 done by running, 1 broken, 2 ran (always) after both had finished *)
 Definition cfg_chain : config :=
   mkcfg [mkstep 0 ByDeps [] [5] (Exits 0 10 0); mkstep 1 ByDeps [DPath 5] [] (Exits 1 0 0); mkstep 2 Always [DStep 1; DStep 0] [] (Exits 0 0 0)]
-        [] 1 true true true true true.
+        [] 1 true true true true true true true.
 
 Example chain_runs :
   match run cfg_chain (round_robin cfg_chain 60) with
@@ -148,7 +198,7 @@ Proof. vm_compute. reflexivity. Qed.
 
 (* downstream of a failed step: with `by_dependencies` on step 2 it never starts *)
 Example downstream_not_started :
-  let cfg := mkcfg [mkstep 0 ByDeps [] [] (Exits 1 0 0); mkstep 1 ByDeps [DStep 0] [] (Exits 0 0 0)] [] 2 true true true true true in
+  let cfg := mkcfg [mkstep 0 ByDeps [] [] (Exits 1 0 0); mkstep 1 ByDeps [DStep 0] [] (Exits 0 0 0)] [] 2 true true true true true true true in
   match run cfg (round_robin cfg 60) with
   | Accepted s => (all_doneb s, map (fun kv => (fst (loc (snd kv)), started (proc (snd kv)))) (thr s)) = (true, [(Broken, true); (Broken, false)])
   | Rejected _ => False
@@ -157,7 +207,7 @@ Proof. vm_compute. reflexivity. Qed.
 
 Example cycle_is_rejected :
   run (mkcfg [mkstep 0 ByDeps [DStep 1] [] (Exits 0 0 0); mkstep 1 ByDeps [DPath 7] [] (Exits 0 0 0); mkstep 2 ByDeps [] [7] (Exits 0 0 0) ;
-              mkstep 3 ByDeps [DStep 0] [7] (Exits 0 0 0)] [] 2 true true true true true) [Step 0; Step 1] = Rejected Cycle.
+              mkstep 3 ByDeps [DStep 0] [7] (Exits 0 0 0)] [] 2 true true true true true true true) [Step 0; Step 1] = Rejected Cycle.
 Proof. vm_compute. reflexivity. Qed.
 
 (* ---- the statements are pinned ------------------------------------------------------------- *)
@@ -174,7 +224,12 @@ Check downstream_of_failed_never_starts :
   forall sch' ti, tget (thr (run_sched cfg s sch')) i = Some ti -> proc ti = NotStarted.
 Check cyclic_rejected : forall cfg sch, acyclicb cfg = false -> exists r, run cfg sch = Rejected r.
 Check C10_outside_known_class : forall cfg, Known_glob_on_absent_output cfg = false -> C10_body cfg.
-Check glob_absent_output_refuted : ~ C10_full.
+Check C10_full_fixed : forall cfg, fixed_P16 cfg = true -> C10_body cfg.
+Check edges_cover_all_declared_reads :
+  forall cfg r p d o, fixed_P16 cfg = true ->
+  In r (c_steps cfg) -> In p (c_steps cfg) -> In d (s_deps r) -> In o (s_outs p) ->
+  sem_reads d o = true -> In (s_id r, s_id p) (edges cfg).
+Check glob_absent_output_refuted : ~ (forall cfg, fixed_P16 cfg = false -> C10_body cfg).
 
 Print Assumptions started_after_dependencies.
 Print Assumptions verdicts_are_final.
@@ -184,5 +239,8 @@ Print Assumptions accepted_no_cycle.
 Print Assumptions explicit_dependencies_are_edges.
 Print Assumptions edges_cover_declared_reads.
 Print Assumptions C10_outside_known_class.
+Print Assumptions edges_cover_all_declared_reads.
+Print Assumptions C10_full_fixed.
+Print Assumptions glob_class_empty_when_fixed.
 Print Assumptions handler_within_table.
 Print Assumptions glob_absent_output_refuted.
